@@ -9,7 +9,10 @@
 EXTENDS MonBase
 VARIABLES l, st
 vars == <<l, st>>
-St0(t, i) == [tr |-> t, base |-> <<>>, cur |-> <<>>, v |-> [r |-> -1, k |-> -1, api |-> "", again |-> -1], psize |-> 0, at |-> i]
+St0(t, i) == [tr |-> t, base |-> <<>>, cur |-> <<>>, v |-> [r |-> -1, k |-> -1, api |-> "", again |-> -1], psize |-> 0, at |-> i, rewok |-> TRUE]
+\* runs on a reader that cannot seek (api "noseek-..."): the reference (variant r = -2, recorded just before) is a fresh Demuxer over what the
+\* reader had left at the Rewind; only the absence of residue is judged, not what Rewind returns
+NoSeek(s) == s.v.api \in {"noseek-data", "noseek-packet", "noseek-mixed"}
 Init == l = 1 /\ st = St0("none", 0)
 V(kind, s, more) == [prop |-> "C20", kind |-> kind, trace |-> s.tr, at |-> s.at, api |-> s.v.api, auto |-> (s.psize = -1), twice |-> (s.v.again >= 0)] @@ more
 
@@ -18,13 +21,15 @@ Step(s, e, i) ==
     [] e.ev = "variant" -> [s EXCEPT !.v = [r |-> e.r, k |-> e.k, api |-> e.api, again |-> e.again], !.cur = <<>>]
     [] e.ev = "rewind" ->
          LET s0 == [s EXCEPT !.at = i, !.cur = <<>>] IN
-         RepIf(e.n # 0 \/ e.err # "nil" \/ e.panic, s0, V("rewind-result", s0, [n |-> e.n, err |-> e.err, k |-> s.v.k]))
+         IF NoSeek(s) THEN RepIf(e.panic, [s0 EXCEPT !.rewok = (e.err = "nil")], V("rewind-result", s0, [n |-> e.n, err |-> "panic", k |-> s.v.k]))
+         ELSE RepIf(e.n # 0 \/ e.err # "nil" \/ e.panic, s0, V("rewind-result", s0, [n |-> e.n, err |-> e.err, k |-> s.v.k]))
     [] e.ev = "deliver" -> [s EXCEPT !.cur = Append(s.cur, e.dg)]
     [] e.ev = "derr" -> [s EXCEPT !.cur = Append(s.cur, "error")]
     [] e.ev = "hang" -> Rep(s, V("no-end-of-stream", [s EXCEPT !.at = i], [k |-> s.v.k]))
     [] e.ev = "eof" ->
          LET s0 == [s EXCEPT !.at = i] IN
-         IF s.v.r = 0 THEN [s0 EXCEPT !.base = s.cur]
+         IF s.v.r = 0 \/ s.v.r = -2 THEN [s0 EXCEPT !.base = s.cur]
+         ELSE IF NoSeek(s) /\ ~s.rewok THEN s0                   \* what Rewind answers on such a reader is not C20's business
          ELSE RepIf(s.cur # s.base, s0, V("differs-from-fresh-demuxer", s0, [k |-> s.v.k, again |-> s.v.again, nfresh |-> Len(s.base), ngot |-> Len(s.cur)]))
     [] OTHER -> s
 
